@@ -33,3 +33,4 @@ static void say(const char *a, const char *b, const char *c, int line) {
 }
 void verif_replay_fail(const char *msg, const char *file, int line) { say("REPLAY-FAIL: ", msg, file, line); _Exit(1); }
 void verif_replay_assume(const char *file, int line) { say("REPLAY-ASSUME-FALSE / path end", "", file, line); _Exit(77); }
+void verif_replay_pathend(void) { _Exit(0); }   /* the path ended (error()/exit() stub) without any CHECK failing */
